@@ -360,8 +360,9 @@ def make_stimulus(rng, block, ncycles, exhaustive):
 # ----------------------------------------------------------------------------
 # running the real passes
 
-def run_real(block, ps, views=None):
-    """returns (raised_at, error) ; raised_at = index of the pass that raised PyrtlError, or None"""
+def run_real(block, ps, views=None, watch=None):
+    """returns (raised_at, error) ; raised_at = index of the pass that raised PyrtlError, or None.
+    watch = (decoy block, its fingerprint, list): the passes that changed the decoy are appended"""
     for k, p in enumerate(ps):
         if views is not None and k == len(ps) - 1:
             views.append(real_view(block))
@@ -369,6 +370,9 @@ def run_real(block, ps, views=None):
             getattr(pyrtl, PASSES[p])(block=block)
         except (pyrtl.PyrtlError, pyrtl.PyrtlInternalError) as e:
             return k, str(e)
+        finally:
+            if watch is not None and fingerprint(watch[0]) != watch[1] and not watch[2]:
+                watch[2].append(p)
     return None, None
 
 
@@ -604,11 +608,12 @@ def run(ctx):
                 else:
                     pyrtl.set_working_block(block, no_sanity_check=True)
                 views = []
-                raised_at, err = run_real(block, ps, views)
+                culprit = []
+                raised_at, err = run_real(block, ps, views, (decoy, decoy_fp, culprit) if explicit else None)
                 if explicit:
                     ctx.count('block_argument', 'explicit block= with a decoy working block')
                     if fingerprint(decoy) != decoy_fp:
-                        ctx.spec_violation('%s:decoy-working-block-changed' % PASSES[ps[0]],
+                        ctx.spec_violation('%s:decoy-working-block-changed' % PASSES[(culprit or ps)[0]],
                                            'passes %s applied with block=b changed the unrelated working block '
                                            '(block argument not honoured)' % [PASSES[p] for p in ps],
                                            {'seed': ctx.seed, 'design': i, 'kind': kind,
